@@ -252,6 +252,7 @@ func RunGroup(specs []*Spec, seed uint64, o Options) []Result {
 	plans := make([]*workflow.Plan, len(specs))
 	for i, sp := range specs {
 		plans[i], prs[i] = build(sp, core.NewRand(seed).Fork(uint64(sp.Index)).Fork(0x1d))
+		prs[i].msgSeed = core.NewRand(seed).Fork(uint64(sp.Index)).Fork(0xe77).Uint64()
 	}
 	logMu.Unlock()
 	for i := range specs {
@@ -428,7 +429,7 @@ func (r *PlanRun) finish() Result {
 	}
 	allOK := outcomes["err"]+outcomes["perm"]+outcomes["wrongtype"]+outcomes["overrun"] == 0
 	dist := map[string]any{"events": len(evs), "kinds": kinds, "outcomes": outcomes, "hang": hang,
-		"after_release": after, "probes": probes, "late_starts": lateStarts, "late_ends": lateEnds, "late_never": lateNever,
+		"after_release": after, "probes": probes, "empty_error_messages": r.emptyMsgs, "late_starts": lateStarts, "late_ends": lateEnds, "late_never": lateNever,
 		"start_ok": r.startOK, "racing_starts": r.raced, "start_ctx_cancelled": r.ctxCancelled, "start_ctx_cancel_us": r.ctxCancelUs}
 	for k, v := range sp.Dist {
 		dist[k] = v
